@@ -1414,6 +1414,14 @@ Section Steps.
     destruct d; try contradiction. cbn [all_vals]. rewrite IH. eauto.
   Qed.
 
+  Lemma rewrap_DV acts w : leaves (Forall is_DV) (rewrap acts w).
+  Proof.
+    unfold rewrap. destruct acts as [|b1 [|b2 r]].
+    - destruct w; try apply L_Panic. apply (leaves_mapM is_DV). intros i _. destruct (nth_error vs i); constructor. exact I.
+    - constructor. constructor; [exact I|constructor].
+    - destruct w; try apply L_Panic. apply (leaves_mapM is_DV). intros i _. destruct (nth_error vs i); constructor. exact I.
+  Qed.
+
   Definition rewrapped (rew : list dval) : dval :=
     match rew with [d] => d | _ => DV (VTuple (match all_vals rew with Some l => l | None => [] end)) end.
 
@@ -1479,17 +1487,19 @@ Section Steps.
     intros Ht Ha. unfold join_steps. rewrite (r_cfg_j _ _ _ HR), Ht, (r_transpose _ _ _ HR), Ht, Ha. cbn [andb negb].
     rewrite active_branches_eq.
     destruct (Nat.ltb k (j_max j - 1)).
-    - destruct next as [[nss ne]|]; [|discriminate]. intros H; inversion H; subst body. exists nss, ne.
+    - destruct next as [[nss ne]|]; intros H; [|discriminate H]. inversion H; subst body. exists nss, ne.
       split; reflexivity.
     - destruct (Nat.ltb 1 n); [|intros H; inversion H; reflexivity].
-      unfold vars at 1. rewrite (enum_filter_map bname (fun b => negb (is_active j k b)) n 0).
-      cbv zeta.
+      assert (Hres : map snd (filter (fun iv : nat * string => negb (is_active j k (fst iv))) (enum_from 0 vars))
+                     = map bname (filter (fun b => negb (is_active j k b)) (seq 0 n))).
+      { unfold vars. apply (enum_filter_map bname (fun b => negb (is_active j k b)) n 0). }
+      rewrite Hres. cbv zeta.
       destruct (filter (fun b => negb (is_active j k b)) (seq 0 n)) as [|i0 ir] eqn:Ef.
       + cbn [map]. intros H; inversion H; reflexivity.
       + remember (i0 :: ir) as inact. assert (Hne : map bname inact <> []) by (subst inact; discriminate).
         destruct (map bname inact) as [|x xs] eqn:Em; [congruence|].
-        destruct (transposer (x :: xs) (tuple_of vars)) as [t|]; [|discriminate].
-        intros H; inversion H. subst inact. exists t. split; reflexivity.
+        destruct (transposer (x :: xs) (tuple_of vars)) as [t|]; intros H; [|discriminate H].
+        inversion H. subst inact. exists t. split; reflexivity.
   Qed.
 
   Lemma inactive_eq k : filter (fun b => negb (active sp k b)) (seq 0 (List.length (sp_trees sp)))
@@ -1515,7 +1525,7 @@ Section Steps.
     destruct f as [|f'].
     - (* last step *)
       replace (Nat.ltb k (j_max j - 1)) with false in Ej by (symmetry; apply Nat.ltb_ge; lia).
-      cbn [Nat.eqb]. rewrite (rel_n_trees _ _ _ HR), inactive_eq.
+      cbn [Nat.eqb]. rewrite inactive_eq, (rel_n_trees _ _ _ HR).
       destruct (Nat.ltb 1 n) eqn:Hn1.
       + cbv zeta in Ej.
         destruct (filter (fun b => negb (is_active j k b)) (seq 0 n)) as [|i0 ir] eqn:Ef.
@@ -1524,24 +1534,23 @@ Section Steps.
           rewrite den_RMatchOk, den_RVar, Hsr. nb.
           destruct srv as [[]| | | | | |]; try reflexivity.
           rewrite den_RBlock. cbn [execs]. nb.
-          apply (extract_refines k (upd ρ1 (n_sr k) (DV v)) st (DV v)); auto.
-          { apply Inv_upd_temp; [exact HI1|apply temp_sr]. } { apply upd_same. } { exact I. }
-          intros ρ2 ds HI2 _. rewrite den_ROk, (final_tuple_sem ρ2 _ HI2). reflexivity.
+          apply (extract_refines k (upd ρ1 (n_sr k) (DV v)) st (DV v)
+                   (Inv_upd_temp _ _ _ (DV v) HI1 (temp_sr k)) (upd_same _ _ _) I Hkm).
+          intros ρ2 ds HI2 _. nb. rewrite den_ROk, (final_tuple_sem ρ2 _ HI2). reflexivity.
         * destruct Ej as (t & Etr & Eb). inversion Eb; subst ss e. rewrite den_RBlock.
           apply (Hstep k ρ st step HI Hkm Es). intros ρ1 srv HI1 Hsr Hnc.
           rewrite den_RMatchOk, den_RVar, Hsr. nb.
           destruct srv as [[]| | | | | |]; try reflexivity.
           rewrite den_RBlock. cbn [execs]. nb.
-          apply (extract_refines k (upd ρ1 (n_sr k) (DV v)) st (DV v)); auto.
-          { apply Inv_upd_temp; [exact HI1|apply temp_sr]. } { apply upd_same. } { exact I. }
-          intros ρ2 ds HI2 _.
+          apply (extract_refines k (upd ρ1 (n_sr k) (DV v)) st (DV v)
+                   (Inv_upd_temp _ _ _ (DV v) HI1 (temp_sr k)) (upd_same _ _ _) I Hkm).
+          intros ρ2 ds HI2 _. nb.
           apply (transposer_sem (tuple_of vars) final_tuple_sem (i0 :: ir) t Etr); [|exact HI2].
           intros b Hb. rewrite <- Ef in Hb. apply filter_In in Hb. destruct Hb as [Hb _]. apply in_seq in Hb. lia.
       + inversion Ej; subst ss e. rewrite den_RBlock.
         apply (Hstep k ρ st step HI Hkm Es). intros ρ1 srv HI1 Hsr Hnc.
         rewrite den_RMatchOk, den_RVar, Hsr. nb.
-        destruct srv as [[]| | | | | |]; try reflexivity.
-        rewrite den_ROk, den_RTuple, den_RVar, upd_same. reflexivity.
+        destruct srv as [[]| | | | | |]; reflexivity.
     - replace (Nat.ltb k (j_max j - 1)) with true in Ej by (symmetry; apply Nat.ltb_lt; lia).
       destruct Ej as (nss & ne & -> & Eb). inversion Eb; subst ss e. cbn [Nat.eqb].
       rewrite den_RBlock.
@@ -1552,15 +1561,112 @@ Section Steps.
       set (ρa := upd ρ1 (n_sr k) (DV v)).
       assert (HIa : Inv ρa st) by (apply Inv_upd_temp; [exact HI1|apply temp_sr]).
       rewrite (rewrap_sem k ρa v (upd_same _ _ _) Hne). nb.
-      apply bind_ext. intros rew. nb. fold (rewrapped rew).
+      eapply bind_ext_leaves; [apply rewrap_DV|]. intros rew Hrew. nb. fold (rewrapped rew).
       rewrite execs_cons. nb.
       assert (Hrnc : not_clo (rewrapped rew)).
       { unfold rewrapped. destruct rew as [|d [|]]; try exact I.
-        (* a single re-wrapped value comes from `rewrap`: it is Ok(..) - but any dval is fine unless a closure *)
-        destruct d; try exact I. }
-      apply (extract_refines k (upd ρa (n_sr k) (rewrapped rew)) st (rewrapped rew)); auto.
-      { apply Inv_upd_temp; [exact HIa|apply temp_sr]. } { apply upd_same. }
-      intros ρ2 ds HI2 _. rewrite <- den_RBlock.
+        inversion Hrew; subst. destruct d; try contradiction. exact I. }
+      apply (extract_refines k (upd ρa (n_sr k) (rewrapped rew)) st (rewrapped rew)
+               (Inv_upd_temp _ _ _ (rewrapped rew) HIa (temp_sr k)) (upd_same _ _ _) Hrnc Hkm).
+      intros ρ2 ds HI2 _. nb. rewrite <- den_RBlock.
       apply (IH (S k) nss ne En); [lia|exact HI2].
+  Qed.
+
+  (* ---- the handler, async kinds ---- *)
+  Lemma gen_handle_async ρ rs : is_async cfg = true -> ρ n_rs = Some rs ->
+    forall hd, (j_handler j <> None -> ρ n_h = Some hd) ->
+    D (gen_handle j) ρ =
+    handle_results callsem awaitsem sp
+      (match j_handler j with Some (k, _) => Some (k, hd) | None => None end) rs.
+  Proof.
+    intros Ha Hrs hd Hh. unfold gen_handle, handle_results.
+    rewrite (r_cfg_sp _ _ _ HR), (r_cfg_j _ _ _ HR), Ha.
+    fold rvars. fold call_handler_block.
+    assert (Hnh : n_h <> n_rs) by (rewrite n_h_g, n_rs_g; apply gname_neq; discriminate).
+    destruct (j_handler j) as [[[| |] o]|].
+    - (* map *)
+      unfold wrap_into_block. rewrite (r_cfg_j _ _ _ HR), Ha.
+      rewrite den_RAwait, den_RGlue, den_RAsyncMove. cbn [execs]. nb. rewrite den_RVar, Hrs. nb.
+      rewrite dens_cons, den_RClosure, dens_nil. nb. rewrite glue_map. cbn [std_map]. nb. cbn [await_d].
+      nb. apply bind_ext. intros v. cbn [await_d]. nb.
+      rewrite den_RBlock. cbn [execs]. nb.
+      rewrite den_RGlue, den_RVar, upd_same. nb. rewrite dens_cons, den_RClosure, dens_nil. nb. rewrite glue_map.
+      assert (Hclo : (fun vs : list val => match vs with
+                                           | [v0] => let! d := D call_handler_block (upd (upd ρ n_rs (DV v)) n_rs (DV v0)) in to_val d
+                                           | _ => Panic P_ILLTYPED end)
+                     = (fun vs : list val => match vs with
+                                             | [v0] => let! d := call_handler callsem sp hd (DV v0) in to_val d
+                                             | _ => Panic P_ILLTYPED end)).
+      { extensionality vs. destruct vs as [|v0 [|]]; try reflexivity.
+        rewrite (call_handler_sem _ (DV v0) hd); [reflexivity|apply upd_same|].
+        rewrite !upd_other by exact Hnh. apply Hh. discriminate. }
+      rewrite Hclo. cbn [await_d]. nb. reflexivity.
+    - (* then *)
+      rewrite den_RAwait, (call_handler_sem ρ rs hd Hrs); [reflexivity|apply Hh; discriminate].
+    - (* and_then *)
+      unfold wrap_into_block. rewrite (r_cfg_j _ _ _ HR), Ha.
+      rewrite den_RAwait, den_RGlue, den_RAsyncMove. cbn [execs]. nb. rewrite den_RVar, Hrs. nb.
+      rewrite dens_cons, den_RClosure, dens_nil. nb. rewrite glue_and_then. cbn [std_and_then]. nb. cbn [await_d].
+      nb. apply bind_ext. intros v. cbn [await_d]. nb.
+      destruct v; try reflexivity.
+      rewrite den_RBlock. cbn [execs]. nb.
+      rewrite (call_handler_sem _ (DV v) hd); [cbn [await_d]; nb; apply bind_ext; intros x; nb; reflexivity|apply upd_same|].
+      rewrite upd_other by exact Hnh. apply Hh. discriminate.
+    - rewrite den_RVar, Hrs. reflexivity.
+  Qed.
+
+  Lemma Inv_init_async : is_async cfg = true ->
+    Inv (if is_spawn cfg then upd empty_env n_spawn_tokio DSpawnTokio else empty_env) st0.
+  Proof.
+    intros Ha. split.
+    - unfold st0. rewrite map_length. apply (rel_n_trees _ _ _ HR).
+    - intros b Hb. rewrite st0_nth.
+      destruct (is_spawn cfg); [|reflexivity]. rewrite upd_other; [reflexivity|].
+      rewrite n_spawn_tokio_g. apply bname_not_gname. discriminate.
+    - intros Ha'. congruence.
+    - intros _ Ha'. congruence.
+    - intros Hs _. rewrite Hs. apply upd_same.
+    - intros b d Hn. rewrite st0_nth in Hn. discriminate.
+  Qed.
+
+  Theorem gen_output_async e :
+    is_async cfg = true ->
+    (forall ss se, gen_steps j pats vars 0 (j_max j) = Ok (Some (ss, se)) ->
+                   forall ρ st, Inv ρ st -> D (RBlock ss se) ρ = steps msem dotsem callsem awaitsem sp (j_max j) 0 st) ->
+    gen_output j = Ok e ->
+    D e empty_env = spec msem dotsem callsem awaitsem sp.
+  Proof.
+    intros Ha Hsteps Hg. unfold gen_output in Hg. cbv zeta in Hg.
+    change (map (branch_pat j) (seq 0 n)) with pats in Hg.
+    change (map (branch_name j) (seq 0 n)) with vars in Hg.
+    destruct (gen_steps j pats vars 0 (j_max j)) as [[[sss se]|]| |] eqn:Egs; cbn [rbind] in Hg; try discriminate.
+    rewrite (r_cfg_j _ _ _ HR), Ha in Hg. inversion Hg; clear Hg.
+    specialize (Hsteps sss se eq_refl).
+    unfold spec. rewrite (r_cfg_sp _ _ _ HR), Ha.
+    rewrite den_RBoxPin, den_RAsyncMove. f_equal. f_equal. rewrite <- bind_assoc. f_equal.
+    unfold run_body. rewrite (rel_max _ _ _ HR), (r_handler _ _ _ HR). fold st0.
+    cbn [app]. rewrite execs_cons, exec_SUseFutures. nb. rewrite !execs_app. nb.
+    pose proof (Inv_init_async Ha) as HI0.
+    assert (E1 : forall A (K : env -> comp A),
+               bind (execs (if is_spawn cfg then [SSpawnTokioFn (opt_default (j_fcp j) [])] else []) empty_env) K
+               = K (if is_spawn cfg then upd empty_env n_spawn_tokio DSpawnTokio else empty_env)).
+    { intros A K. destruct (is_spawn cfg); cbn [execs]; [rewrite exec_SSpawnTokioFn|]; nb; reflexivity. }
+    rewrite E1. set (ρ1 := if is_spawn cfg then upd empty_env n_spawn_tokio DSpawnTokio else empty_env) in *.
+    assert (Hfin : forall ρ2 hd, Inv ρ2 st0 -> (j_handler j <> None -> ρ2 n_h = Some hd) ->
+              (let! ρ' := execs [SLet (PIdent n_rs) (RBlock sss se)] ρ2 in D (gen_handle j) ρ') =
+              (let! rs := steps msem dotsem callsem awaitsem sp (j_max j) 0 st0 in
+               handle_results callsem awaitsem sp
+                 (match j_handler j with Some (k, _) => Some (k, hd) | None => None end) rs)).
+    { intros ρ2 hd HI2 Hh. cbn [execs]. rewrite exec_SLet_ident, (Hsteps ρ2 st0 HI2). nb. apply bind_ext. intros rs. nb.
+      apply gen_handle_async; [exact Ha|apply upd_same|].
+      intros Hn. rewrite upd_other; [apply Hh; exact Hn|]. rewrite n_h_g, n_rs_g. apply gname_neq. discriminate. }
+    destruct (j_handler j) as [[hk ho]|] eqn:Eh.
+    - cbn [app]. rewrite execs_cons, exec_SLet_ident, den_RUser. nb. cbn [bind].
+      rewrite (snap_inv ρ1 st0 HI0). apply Vis_ext. intros v. nb.
+      apply (Hfin (upd ρ1 n_h (DV v)) (DV v)).
+      + apply Inv_upd_temp; [exact HI0|apply temp_h].
+      + intros _. apply upd_same.
+    - cbn [app]. nb.
+      apply (Hfin ρ1 (DV VUnit) HI0). congruence.
   Qed.
 End Steps.
